@@ -47,7 +47,13 @@ WIT = [
  ('formatter-alphabet-accepted-by-readers', 'PRINT 1D+20 shows 1D+20; INPUT x# answered 1D+20 -> "Redo from start"; DATA 1D+20 : READ x# -> device error'),
  ('parse-action-shape:qbee/grammar.py:parse_bload_stmt', 'BLOAD "x" -> ValueError (not enough values to unpack)'),
  ('parse-action-shape:qbee/grammar.py:parse_right_assoc_binary_expr', 'PRINT 2 ^ -1 -> AssertionError'),
- ('consumer-type', 'KILL 5 / DO ... LOOP WHILE x! -> machine TYPE_MISMATCH for an accepted program'),
+ ('emission:net-effect:qbee/qvm_codegen.py:gen_binary_op', 'a# = 7 : b# = 2 : x# = a# \\ b# : y# = x# + 1# -> machine TYPE_MISMATCH (x# holds a LONG cell: INTDIV/MOD/logical operators on float operands are typed DOUBLE/SINGLE but computed as LONG)'),
+ ('emission:consumer-type:qbee/qvm_codegen.py:gen_bload', 'BLOAD 5, 1 -> machine TYPE_MISMATCH (filespec never type-checked)'),
+ ('emission:consumer-type:qbee/qvm_codegen.py:gen_bsave', 'BSAVE 5, 1, 1 -> machine TYPE_MISMATCH (filespec never type-checked)'),
+ ('emission:consumer-type:qbee/qvm_codegen.py:gen_kill', 'KILL 5 -> machine TYPE_MISMATCH'),
+ ('emission:consumer-type:qbee/qvm_codegen.py:gen_loop', 'x = 1.5 : DO : LOOP WHILE x -> machine TYPE_MISMATCH (LOOP WHILE/UNTIL condition is not converted to INTEGER)'),
+ ('emission:handler-host-exception:qbee/qvm_codegen.py:gen_print_stmt', 'PRINT USING "##"; -> IndexError in _exec_print'),
+ ('generator-total:generator-raises:qbee/qvm_codegen.py:gen_binary_op', 'x = 1 + ("a" * 2) -> ValueError in gen_code_for_conv: Type.__eq__ makes `== Type.UNKNOWN` always False, so the UNKNOWN-type check of process_binary_op_pre never fires'),
 ]
 
 # fixed: (property, commit subject fragment, key, what failed)
